@@ -152,6 +152,9 @@ def cases(draw):
             acc.append([(sd >> 5) % 3, 'ww' if (sd >> 7) % 4 else 'rw', ((page << 14) + ((sd >> 40) % (1 << 14))) % U64, (sd >> 20) & ((1 << w) - 1)])
         img['scatter'] = npages
     img['accesses'] = acc
+    if d.pct() < 25:
+        # one Memory object re-used for 2-4 runs: (ring length, IO call at which the callback raises or 0, exception kind)
+        img['reuse'] = [[d.choice([0, 0, 1, 3, 10]), d.choice([0, 0, 1, 2, d.int(1, 6)]), d.choice(['kbd', 'foreign'])] for _ in range(d.int(2, 4))]
     return img
 
 
@@ -214,6 +217,8 @@ def run_case(case):
         cl.append('device access outside segments')
     if case['accesses']:
         cl.append('device accesses')
+    if case.get('reuse'):
+        cl.append('one Memory object re-used for %d runs' % len(case['reuse']))
     if case.get('scatter'):
         cl.append('page scatter >= %d pages' % (40 if case['scatter'] >= 40 else 12))
     nt = ops >= 4 and (len(modes) >= 2 or outside > 0)
